@@ -40,7 +40,7 @@ def check_effects(ctx, trace_path):
 
 
 def run_templates(ctx, clauses, seeds, iters, name="runs", quick_grid=None, templates=None, evals=("seq",), components=False,
-                  extra_specs=None):
+                  extra_specs=None, more_specs=()):
     if extra_specs is not None:
         sp = extra_specs
     elif components:
@@ -50,6 +50,7 @@ def run_templates(ctx, clauses, seeds, iters, name="runs", quick_grid=None, temp
         sp = specs(ctx.quick if quick_grid is None else quick_grid, seeds, iters)
     if templates:
         sp = [s for s in sp if s["template"] in templates]
+    sp = sp + list(more_specs)     # property-specific runs that are not part of the shared grid
     out = []
     for s in sp:
         for e in evals:
